@@ -146,8 +146,12 @@ PLAN = [("hooke_default", 1, 0.06), ("hooke_brick", 1, 0.06), ("implicit_norton"
         ("implicit_plasticity", 2, 0.20), ("iso_plasticity", 2, 0.20), ("repo", 3, 0.22)]
 
 
-def tangent_description(rng, kind, idx):
-    p = bt.random_description(rng, kind, idx, tangent_only=True)
+def tangent_description(rng, kind, idx, slot=0):
+    # every run holds, per Implicit inelastic kind, one program whose jacobian is computed numerically (second slot):
+    # its consistent tangent operator comes from the jacobian re-evaluated after convergence (updateOrCheckJacobian),
+    # a code path of the generated integrate method that analytical jacobians do not take
+    force = "NewtonRaphson_NumericalJacobian" if (slot == 1 and kind in ("implicit_norton", "implicit_plasticity")) else None
+    p = bt.random_description(rng, kind, idx, tangent_only=True, force_algo=force)
     # finite differences need a tightly converged integration
     if "eps" in p:
         p["eps"] = rng.choice([1e-14, 1e-13]) if kind not in ("iso_creep", "iso_plasticity") else rng.choice([1e-12, 1e-14])
@@ -174,7 +178,7 @@ def main():
                 sel = sorted({first, rng.choice(hyps)} | set(entry.get("needs", [])), key=hyps.index)
                 p = bt.repo_program(REPO, entry, sel)
             else:
-                p = tangent_description(rng, kind, SEED * 3 + i)
+                p = tangent_description(rng, kind, SEED * 3 + i, slot=i)
                 p["name"] = "%sT%d" % (p["name"], SEED % 100000)
                 p = bt.make_program(p)
             progs.append((p, max(5, int(cases * share / k))))
